@@ -6,6 +6,7 @@ CONSTANTS
   ValSet = {0, 1, 2, 3}
   Kinds = {"half_life", "winsor", "spearman"}
   RampLens = {10}
+  ShiftHalves = {6}
   Elem <- ElemDef
 INVARIANTS NoUnderflow InRange ResultLaw SpearmanLaw EmitComposite
 PROPERTY Terminates
